@@ -117,6 +117,11 @@ func (i *interpreter) checkGlobalRead(g *ssa.Global) {
 	if zeroIsTheModel[g.String()] {
 		return
 	}
+	for _, z := range i.cfg.InitPkgs {
+		if z == "zero:"+g.String() {
+			return
+		}
+	}
 	panic(engineError{fmt.Sprintf("read of package-level variable %s whose initialiser was not run (at %s)", g.String(), i.where())})
 }
 
@@ -130,6 +135,9 @@ var zeroIsTheModel = map[string]bool{"internal/buildcfg.Experiment": true}
 // statements only; calls to other packages' init are skipped).
 func (i *interpreter) runInits() {
 	for _, p := range i.cfg.InitPkgs {
+		if strings.HasPrefix(p, "zero:") {
+			continue
+		}
 		pkg := i.prog.ImportedPackage(p)
 		if pkg == nil {
 			panic(engineError{"init: no such package " + p})
